@@ -184,6 +184,25 @@ NoLic(p) == {i \in Covered(p) : ~p.files[i].unreadable /\ ~\E it \in InfoOf(p, p
 ReadErr(p) == {i \in Covered(p) : p.files[i].unreadable}
 
 -----------------------------------------------------------------------------------
+(* M: the report mechanism (FileReport.generate, ProjectReport.generate,           *)
+(* unused_licenses, is_compliant) as set tests, for M |= R checks.                 *)
+MLicenseMap(p) == {s \in DOMAIN p.cls : p.cls[s] \in {"cur", "dep", "exc"}}
+                    \cup {id \in Provided(p) : Cls(p, id) = "ref"}              \* _find_licenses registers LicenseRef-
+MIdentifiers(u) == {u.key} \cup (IF u.base # u.key THEN {u.base} ELSE {})
+MBadOf(p, f)     == {u.key : u \in {u \in UsedOf(p, f) : MIdentifiers(u) \cap MLicenseMap(p) = {}}}
+MMissingOf(p, f) == {u.key : u \in {u \in UsedOf(p, f) : MIdentifiers(u) \cap Provided(p) = {}}}
+MUsed(p)   == UNION {{u.key : u \in UsedOf(p, p.files[i])} : i \in Covered(p) \ ReadErr(p)}
+MUnused(p) == {lic \in Provided(p) : ~(lic \in MUsed(p) \/ (lic \o "+") \in MUsed(p))}
+MBadProvided(p) == {name \in Provided(p) : name \notin MLicenseMap(p)}
+MDeprecated(p)  == {name \in Provided(p) : name \in MLicenseMap(p) /\ Cls(p, name) = "dep"}
+
+MMissing(p) == UNION {MMissingOf(p, p.files[i]) : i \in Covered(p) \ ReadErr(p)}
+MBad(p)     == UNION {MBadOf(p, p.files[i]) : i \in Covered(p) \ ReadErr(p)} \cup MBadProvided(p)
+MCompliant(p) ==    \* `not any((missing, unused, bad, deprecated, without_extension, no copyright, no licence, read errors))`
+   /\ MMissing(p) = {} /\ MUnused(p) = {} /\ MBad(p) = {} /\ MDeprecated(p) = {} /\ NoExt(p) = {}
+   /\ NoCop(p) = {} /\ NoLic(p) = {} /\ ReadErr(p) = {}
+
+-----------------------------------------------------------------------------------
 (*                                   C01: verdict                                  *)
 Compliant(p) ==
    /\ Missing(p) = {} /\ Unused(p) = {} /\ BadUsed(p) = {} /\ BadProvided(p) = {}
